@@ -59,3 +59,9 @@ Print Assumptions C06_all_entries.
 Print Assumptions C06_unchanged_when_full.
 Print Assumptions C06_total.
 Print Assumptions C06_oracle_spec_sound.
+
+(* maximize answers from its arguments and the generated tables alone: the regenerated inventory of places where state could outlive a call (gen/StateSites.v) contains nothing but the seven immutable generated tables *)
+From UL Require StateSitesProofs.
+Theorem C06_library_stateless : StateSitesProofs.library_stateless = true.
+Proof. exact StateSitesProofs.stateless. Qed.
+Print Assumptions C06_library_stateless.
